@@ -253,6 +253,7 @@ def evaluate():
     # parsed: handler placement in metabolize
     facts["print_in_try"] = False
     facts["dispatch_in_try"] = False
+    facts["str_guarded"] = False
     try:
         src = (REPO / "operon_ai" / "organelles" / "mitochondria.py").read_text()
         tree = ast.parse(src)
@@ -285,6 +286,21 @@ def evaluate():
                     prints.append(n)
                 elif f.startswith("self._") and f != "self._detect_pathway":
                     dispatch.append(n)
+        # legacy entry point: every str(...) conversion in digest_glucose sits inside a catching try
+        facts["str_guarded"] = False
+        try:
+            dg = [n for n in c.body if isinstance(n, ast.FunctionDef) and n.name == "digest_glucose"][0]
+            prot = set()
+            for t in ast.walk(dg):
+                if isinstance(t, ast.Try) and catches_exception(t):
+                    for st_ in t.body:
+                        for n in ast.walk(st_):
+                            prot.add(id(n))
+            convs = [n for n in ast.walk(dg) if (isinstance(n, ast.Call) and ast.unparse(n.func) in ("str", "repr", "format"))
+                     or (isinstance(n, ast.FormattedValue) and "atp" in ast.unparse(n.value))]
+            facts["str_guarded"] = all(id(n) in prot for n in convs)
+        except Exception as e:  # noqa
+            facts["notes"].append(f"parse of digest_glucose failed: {e!r}")
         facts["print_in_try"] = all(id(n) in protected for n in prints)
         facts["dispatch_in_try"] = bool(dispatch) and all(id(n) in protected for n in dispatch)
     except Exception as e:  # noqa
@@ -342,6 +358,8 @@ def render(f) -> str:
     L.append("def keywordsRead : Bool := " + b(f.get("keywords_read")))
     L.append("def printInTry : Bool := " + b(f.get("print_in_try")))
     L.append("def dispatchInTry : Bool := " + b(f.get("dispatch_in_try")))
+    L.append("/-- digest_glucose: the str(value) conversion sits inside a try ... except Exception -/")
+    L.append("def strGuarded : Bool := " + b(f.get("str_guarded")))
     L.append("def maxExpressionLength : Option Nat := " +
              ("none" if f.get("max_len") is None else f"some {f['max_len']}"))
     L.append("")
